@@ -108,6 +108,9 @@ func Start(t testing.TB, o Options) *Node {
 		"NUTS_URL":                   "http://" + pub,
 		"NUTS_DIDMETHODS":            strings.Join(o.DIDMethods, ","),
 		"NUTS_VERBOSITY":             o.Verbosity,
+		// start-up of the embedded NATS server is bounded by a wall-clock timeout of the node (default 30 s); on a heavily loaded
+		// machine that is an environment failure, not something the checks want to observe
+		"NUTS_EVENTS_NATS_TIMEOUT": "600",
 	}
 	for k, v := range o.Env {
 		env[k] = v
@@ -135,7 +138,7 @@ func Start(t testing.TB, o Options) *Node {
 	go func() { done <- cmd.Execute(ctx, system) }()
 	in, pub = env["NUTS_HTTP_INTERNAL_ADDRESS"], env["NUTS_HTTP_PUBLIC_ADDRESS"] // may have been overridden by o.Env
 	n := &Node{Internal: "http://" + in, Public: "http://" + pub, DataDir: dir, System: system}
-	deadline := time.Now().Add(60 * time.Second)
+	deadline := time.Now().Add(10 * time.Minute) // watchdog only (loaded machines); a node that never comes up fails the check as broken
 	for {
 		select {
 		case err := <-done:
